@@ -27,6 +27,44 @@ H = vlib.VERIF / "harness" / "C05"
 CORPUS = vlib.VERIF / "corpus" / "C05"
 U64 = 2 ** 64
 
+META = {
+    "text": "Rocq theorems over pointer-level models (heap: address -> next/prev resp. next + tail field; every field access "
+            "checked) for ALL finite histories, by induction over the history with a representation invariant. "
+            "list.h: every history accepted by an abstract machine over rings and detached chains (init, add_, add_node, "
+            "add_next/prev, del_, del_node/next/prev, set_, set_node, mov_next/prev, rot_next/prev, swap_, swap_node; "
+            "preconditions: node to add is on no ring, sections given in ring order, swapped sections disjoint and not "
+            "adjacent, mov takes another ring) runs without fault and leaves every ring a ring of the heap: next/prev "
+            "mutually consistent, walk from any node = the abstract cyclic sequence forwards and backwards, no node shared "
+            "(list_history, list_step, list_observed). slist.h: the same for ctor/add/add_head/add_tail/del/del_head/mov/"
+            "rot on any number of list objects; the invariant includes tail = last node (head when empty) and last->next = "
+            "NULL (slist_history, slist_tail_is_last). que.c/que.h: two queue objects refine two abstract double-ended "
+            "sequences of (address, value) elements for every history of push/pull both ends, insert/remove at any index, "
+            "at for any signed index, fore/back, sort_fore/sort_back/push_sort, element swap (a_que_swap_), whole-queue "
+            "swap, drop, setz, dtor+ctor, under EVERY allocator fault schedule: each step either reports failure (only "
+            "possible when a request was refused; state unchanged, drop/setz: a suffix remains) or has the abstract effect; "
+            "elements keep their (address, value) pair while enqueued; a node handed out is not enqueued; num_ = length; "
+            "pool and rings disjoint (que_history, que_step, que_no_fault, que_invariant_facts). The three bodies as found "
+            "in the pinned tree (a_slist_rot on one node, a_que_swap, a_que_swap_ on neighbours) are proved to break the "
+            "invariant (..._as_found_refuted); /repo carries the repairs and the models follow /repo. "
+            "Tie: the extracted models and the C compiled from the current tree (ASan+UBSan, counting a_alloc with fault "
+            "schedule) execute the same generated histories (valid ones aimed at every case split, plus arbitrary-argument "
+            "'wild' histories for the lists); after every operation the whole heap dump (lists) resp. result, num/siz/mem, "
+            "ring forwards and backwards, pool, payloads and allocator request trace (queue) must be identical.",
+    "note": "Trusted: Coq kernel; extraction (ExtrOcamlBasic only) and the two hand-written drivers; the hand-written models "
+            "coq/C05/*Defs.v are tied to the C by differential testing only, not by a verified translation; C semantics and "
+            "compiler. Modelled, not verified: a_alloc as an oracle consuming one boolean per request (addresses are never "
+            "reused in the model, the C driver names blocks in allocation order); num_/mem_/cur_ as unbounded naturals "
+            "(cannot wrap: >= 17 bytes of address space per element); element payload = one integer per node; the "
+            "comparison callback is a total function of the two payloads; dtor callbacks are NULL. The list theorems speak "
+            "about histories the abstract machines accept (documented preconditions); outside them (overlapping or adjacent "
+            "sections, nodes already on a ring) only model = C is checked. a_list_link/a_list_loop are modelled and compared "
+            "but have no abstract step. The search oracle (classes DL/SL/QU in checks/C05.py) restates the Rocq "
+            "specifications in Python. No axioms.",
+    "technique": "Rocq proof (separation-style ring/chain invariants, refinement to abstract sequences by induction over "
+                 "histories and fault schedules) + extracted-model vs C correspondence under ASan/UBSan",
+    "category": "proof",
+}
+
 
 class Pre(Exception):
     """the operation's documented precondition does not hold in the abstract state"""
@@ -465,7 +503,6 @@ class QU:
         self.fresh = 3
         self.sched = []
         self.tags = []
-        self.partial = False
         self.failed_alloc = False
 
     # -- allocator answers (both modes follow the schedule to know whether a failure is legitimate)
@@ -639,32 +676,37 @@ class QU:
                 for d in (self.xs, self.siz, self.pool, self.mem):
                     d[0], d[1] = d[1], d[0]
         elif op in ("drop", "setz"):
+            # a_que_drop reserves the pool array for every node before it moves the first one (one
+            # request at most), so it is all-or-nothing; a_que_setz releases the recycled nodes when the
+            # element size grows (no request), so it can only fail in its drop
             if self.predict:
-                while xs:
-                    if self.take(s, 0, None) == 0:
+                need = len(self.pool[s]) + len(xs)
+                if need > self.mem[s]:
+                    if not self.ans():
                         r = 4
-                        break
-                if r == 0 and op == "setz":
-                    z = int(t[1]) or 1
-                    if z > self.siz[s]:
-                        tag += ":grow"
-                        for _ in self.pool[s]:
-                            if not self.ans():
-                                r = 4
-                                break
-                    if r == 0:
+                        tag += ":fault"
+                    else:
+                        self.mem[s] = (need + 7) // 8 * 8
+                        tag += ":reserve"
+                if r == 0:
+                    self.pool[s].extend(xs)
+                    xs[:] = []
+                    if op == "setz":
+                        z = int(t[1]) or 1
+                        if z > self.siz[s]:
+                            tag += ":grow"
+                            self.pool[s] = []
                         self.siz[s] = z
-                tag += ":fault" if r else ""
             else:
                 r = res
                 if res == 0:
                     xs[:] = []
                     if op == "setz":
                         self.siz[s] = int(t[1]) or 1
-                else:
-                    if not failed_alloc:
-                        raise Bad("%s failed (%s) although no allocation was refused" % (op, res))
-                    self.partial = True   # all-or-nothing is not what the code does here (C07)
+                elif not failed_alloc:
+                    raise Bad("%s failed (%s) although no allocation was refused" % (op, res))
+                # a failed drop/setz must leave the contents as they were: nothing is changed here,
+                # check() compares the dumped ring with the unchanged abstract sequence
         else:
             raise Pre("unknown op")
         self.tags.append(tag)
@@ -675,11 +717,6 @@ class QU:
         for s in (0, 1):
             d = st[s]
             xs = self.xs[s]
-            if getattr(self, "partial", False):
-                # a refused allocation inside drop/setz: some suffix of the elements is left
-                if d["f"] is None or d["f"] != xs[len(xs) - len(d["f"]):]:
-                    raise Bad("queue %d after a failed drop: %s is not a suffix of %s" % (s, d["f"], xs))
-                xs[:] = d["f"]
             if d["f"] is None or d["b"] is None:
                 raise Bad("queue %d: ring is broken (walk from the head does not come back)" % s)
             if d["f"] != xs:
@@ -692,7 +729,6 @@ class QU:
                 raise Bad("queue %d: element size %d, expected %d" % (s, d["z"], self.siz[s]))
             if len(set(d["p"])) != len(d["p"]):
                 raise Bad("queue %d: pool holds a node twice %s" % (s, d["p"]))
-        self.partial = False
         allp = st[0]["p"] + st[1]["p"]
         both = set(allp) & self.enq()
         if both or len(set(allp)) != len(allp) or (set(self.xs[0]) & set(self.xs[1])):
@@ -1048,25 +1084,25 @@ def run(ctx):
         # dlist, valid histories
         rng = random.Random(ctx.subseed("dlist-valid-%d" % sd))
         hs = []
-        for _ in range(70 if quick else 1500):
+        for _ in range(250 if quick else 1500):
             h, tg = gen_dlist(rng, rng.choice([20, 40, 80]), rng.choice([3, 4, 6, 9, 12]))
             hs.append(h)
             add_tags("list:" + t for t in tg)
         batches.append(("dlist-valid", hs, True))
         rng = random.Random(ctx.subseed("dlist-wild-%d" % sd))
-        batches.append(("dlist-wild", [gen_dlist_wild(rng, 40, rng.choice([2, 3, 5, 8])) for _ in range(50 if quick else 1200)], False))
+        batches.append(("dlist-wild", [gen_dlist_wild(rng, 40, rng.choice([2, 3, 5, 8])) for _ in range(150 if quick else 1200)], False))
         rng = random.Random(ctx.subseed("slist-valid-%d" % sd))
         hs = []
-        for _ in range(60 if quick else 1200):
+        for _ in range(200 if quick else 1200):
             h, tg = gen_slist(rng, rng.choice([15, 40, 80]), rng.choice([1, 2, 3, 6, 10]))
             hs.append(h)
             add_tags("slist:" + t for t in tg)
         batches.append(("slist-valid", hs, True))
         rng = random.Random(ctx.subseed("slist-wild-%d" % sd))
-        batches.append(("slist-wild", [gen_slist_wild(rng, 40, rng.choice([1, 2, 4])) for _ in range(30 if quick else 600)], False))
+        batches.append(("slist-wild", [gen_slist_wild(rng, 40, rng.choice([1, 2, 4])) for _ in range(100 if quick else 600)], False))
         rng = random.Random(ctx.subseed("queue-%d" % sd))
         hs = []
-        for i in range(150 if quick else 2600):
+        for i in range(500 if quick else 2600):
             h, tg = gen_queue(rng, rng.choice([30, 60, 120]), faults=(i % 3 == 2))
             hs.append(h)
             add_tags("que:" + t for t in tg)
@@ -1142,7 +1178,7 @@ que:sort_fore:short que:sort_back:stay que:sort_back:move que:sort_back:to-front
 que:push_sort:empty que:push_sort:at-end que:push_sort:move que:push_sort:to-front
 que:swap_e:same que:swap_e:two-queues que:swap_e:adjacent-lr que:swap_e:adjacent-rl que:swap_e:apart
 que:swap:self que:swap:empty-empty que:swap:empty-full que:swap:full-empty que:swap:full-full
-que:drop que:drop:fault que:setz que:setz:grow que:setz:grow:fault que:pull_fore:empty que:pull_fore:last que:pull_back:empty
+que:drop que:drop:reserve que:drop:fault que:setz que:setz:grow que:setz:fault que:pull_fore:empty que:pull_fore:last que:pull_back:empty
 que:pull_back:last que:reset
 slist:rot:len0 slist:rot:len1 slist:rot:len2+ slist:add:empty slist:add:last slist:add:inner slist:add_head:empty
 slist:add_tail:empty slist:add_tail:last slist:del:none slist:del:last slist:del:inner slist:del_head:none
